@@ -65,6 +65,23 @@ class RuleResult:
                         '(rule would pass vacuously)' % (self.rule, self.sites, what, minimum))
 
 
+def generic_name(fn):
+    """LabeledDirectedGraph<unsigned int>::addEdge -> LabeledDirectedGraph<*>::addEdge ;
+    algorithms::findGeodesics<BaseGraph::LabeledDirectedGraph, int> -> algorithms::findGeodesics<*>"""
+    out = []
+    depth = 0
+    for ch in fn:
+        if ch == '<':
+            if depth == 0:
+                out.append('<*>')
+            depth += 1
+        elif ch == '>':
+            depth -= 1
+        elif depth == 0:
+            out.append(ch)
+    return ''.join(out)
+
+
 def load_known():
     known, fixed = [], []
     if os.path.exists(KNOWN):
@@ -91,13 +108,17 @@ def finish(prop, tier, level, results, t0, explanation, assumptions, trusted_bas
     for r in results:
         findings.extend(r.findings)
         inconclusive.extend(r.inconclusive)
-    # dedupe findings by key
-    seen = set()
+    # collapse instantiations of the same template: one finding per (rule, function template, site)
+    seen = {}
     uniq = []
     for f in findings:
+        inst = f.function
+        f.function = generic_name(f.function)
         if f.key() in seen:
+            seen[f.key()].detail.setdefault('instantiations', []).append(inst)
             continue
-        seen.add(f.key())
+        f.detail.setdefault('instantiations', []).append(inst)
+        seen[f.key()] = f
         uniq.append(f)
     new = [f for f in uniq if f.key() not in known_keys]
     old = [f for f in uniq if f.key() in known_keys]
